@@ -1,9 +1,23 @@
 """C12: mean stress transformation along the iso-damage lines of a Haigh diagram.
 
 Implementation side (real pylife, in-process), generators, correspondence lines and the direct
-property oracle (closed forms written here independently of both the code and the Lean model)."""
+property oracle (closed forms written here independently of both the code and the Lean model).
+
+Case kinds
+  cyc  one diagram (FKM-Goodman with or without M2 | five-segment | from_dict), a frame of cycles (range/mean or
+       from/to), 1-2 successive targets, through HaighDiagram.transform (+ plain functions / accessors in the oracle)
+  frm  per-element parameter FRAME with different rows (Goodman / five-segment incl. different R12/R23) and a collective
+       whose index carries the element key (named index, (key, cycle_number) MultiIndex in any level order, unsorted
+       rows, two-level keys) through df.meanstress_transform.*; compared label by label
+  mat  rainflow matrix (from/to or range/mean classes, 0-2 further index levels in ANY level order, rows optionally
+       sparse / shuffled, uniform or non-uniform class widths) through series.meanstress_transform.fkm_goodman with a
+       parameter Series, a per-key parameter frame (different rows), a frame over a subset of the further levels or a
+       frame that brings a level of its own; class sums compared per key of the further levels
+"""
+import itertools
 import json
 import math
+import random
 import warnings
 
 import numpy as np
@@ -47,12 +61,25 @@ def pos(R):
     return (1.0 + R) / (1.0 - R)
 
 
+def gpar(p):
+    """(M, M2) of a Goodman parameter list; a list without M2 means the documented default M2 = M/3."""
+    return (p[0], p[1]) if len(p) == 2 else (p[0], p[0] / 3.0)
+
+
+def is_negzero(x):
+    return x == 0.0 and math.copysign(1.0, x) < 0.0
+
+
+GNAMES = ["M", "M2"]
+FNAMES = ["M0", "M1", "M2", "M3", "M4", "R12", "R23"]
+
+
 def haigh_segments(diag):
     """The diagram as a list of (s_lo, s_hi, M) covering the mean/amplitude axis from left to right,
     or None if it is not of the standard shape (exactly one segment beyond R = 1, namely (1, inf])."""
     kind, p = diag
     if kind == "g":
-        M, M2 = p
+        M, M2 = gpar(p)
         return [(-INF, -1.0, 0.0), (-1.0, 1.0, M), (1.0, INF, M2)]
     if kind == "f":
         M0, M1, M2, M3, M4, R12, R23 = p
@@ -66,6 +93,9 @@ def haigh_segments(diag):
     for lo, hi, M in rest:
         out.append((pos(lo), INF if hi == 1.0 else pos(hi), M))
     return out
+
+
+GUARD_EPS = 1e-6      # the quantifier's "exact iso-damage amplitude stays positive", with room for rounding (1/eps * 2^-53 << rtol)
 
 
 def walk(segs, a, m, Rg):
@@ -87,7 +117,7 @@ def walk(segs, a, m, Rg):
             if hi <= sg:
                 break
             nxt = max(lo, sg)
-        if 1.0 + M * cur <= 1e-9 or 1.0 + M * nxt <= 1e-9:
+        if 1.0 + M * cur <= GUARD_EPS or 1.0 + M * nxt <= GUARD_EPS:
             return math.nan
         f *= (1.0 + M * cur) / (1.0 + M * nxt)
         cur = nxt
@@ -110,8 +140,9 @@ def goodman_closed_form(a, m, M, M2, Rg):
     return eq / (1.0 + M) * (1.0 + M2) / (1.0 + M2 * sg)
 
 
-def close(a, b, rtol=1e-9):
-    return abs(a - b) <= rtol * max(1.0, abs(a), abs(b))
+def close(a, b, rtol=1e-9, scale=1.0):
+    """relative comparison; `scale` = magnitude of the input amplitude (differences below 1e-3*rtol*scale do not count)"""
+    return abs(a - b) <= rtol * max(abs(a), abs(b), 1e-3 * scale)
 
 
 # ---------------------------------------------------------------- implementation side
@@ -119,9 +150,9 @@ def make_hd(diag):
     M = mst()
     kind, p = diag
     if kind == "g":
-        return M.HaighDiagram.fkm_goodman(pd.Series({"M": p[0], "M2": p[1]}))
+        return M.HaighDiagram.fkm_goodman(pd.Series(dict(zip(GNAMES, p))))       # one parameter: no 'M2' key (default M/3)
     if kind == "f":
-        return M.HaighDiagram.five_segment(pd.Series(dict(zip(["M0", "M1", "M2", "M3", "M4", "R12", "R23"], p))))
+        return M.HaighDiagram.five_segment(pd.Series(dict(zip(FNAMES, p))))
     d = {(dec(p[i]), dec(p[i + 1])): dec(p[i + 2]) for i in range(0, len(p), 3)}
     return M.HaighDiagram.from_dict(d)
 
@@ -152,27 +183,172 @@ def run_chain(diag, iface, cyc, goals):
     return out
 
 
-def matrix_of(case):
+# ------------------------------------------------ 'frm': collective + per-element parameter frame
+def frm_key_names(case):
+    return ["element_id", "node"][:len(case["keys"][0])]
+
+
+def frm_frames(case):
+    """(collective DataFrame, parameter DataFrame, canonical row labels) of a 'frm' case.  Row label = key + (cycle number,)."""
     mst()
+    knames = frm_key_names(case)
+    cols = ["from", "to"] if case["iface"] == "ft" else ["range", "mean"]
+    labels, data = [], []
+    for key, cyc in zip(case["keys"], case["cyc"]):
+        for j, c in enumerate(cyc):
+            labels.append(tuple(key) + (j,))
+            data.append((dec(c[0]), dec(c[1])))
+    order = case["order"]                      # permutation of knames + ["cycle_number"], or knames only (one cycle per key)
+    canon = knames + ["cycle_number"]
+    pos_of = [canon.index(n) for n in order]
+    perm = case.get("perm") or list(range(len(labels)))
+    tuples = [tuple(labels[i][k] for k in pos_of) for i in perm]
+    if len(order) == 1:
+        idx = pd.Index([t[0] for t in tuples], name=order[0])
+    else:
+        idx = pd.MultiIndex.from_tuples(tuples, names=order)
+    df = pd.DataFrame([data[i] for i in perm], columns=cols, index=idx, dtype=float)
+    names = GNAMES if case["kind"] == "g" else FNAMES
+    ncol = len(case["rows"][0])
+    pperm = case.get("pperm") or list(range(len(case["keys"])))
+    pk = [tuple(case["keys"][i]) for i in pperm]
+    pidx = pd.Index([k[0] for k in pk], name=knames[0]) if len(knames) == 1 else pd.MultiIndex.from_tuples(pk, names=knames)
+    par = pd.DataFrame([case["rows"][i] for i in pperm], columns=names[:ncol], index=pidx, dtype=float)
+    return df, par, labels
+
+
+def frm_diag(case, i):
+    return [case["kind"], list(case["rows"][i])]
+
+
+def frm_result_by_label(case, lc):
+    """{canonical row label: (amplitude, from, to)} of the LoadCollective the accessor returned."""
+    canon = frm_key_names(case) + ["cycle_number"]
+    fr = lc.to_pandas()
+    amp = lc.amplitude
+    names = list(fr.index.names)
+    out = {}
+    for t, a, f, to in zip(fr.index, amp.to_numpy(), fr["from"].to_numpy(), fr["to"].to_numpy()):
+        t = t if isinstance(t, tuple) else (t,)
+        d = dict(zip(names, t))
+        lab = tuple(d[n] if n in d else 0 for n in canon)
+        if lab in out:
+            raise ValueError(f"result row {lab} occurs twice")
+        out[lab] = (float(a), float(f), float(to))
+    return out
+
+
+def frm_call(case, df, par):
+    acc = df.meanstress_transform
+    return acc.fkm_goodman(par, dec(case["goal"])) if case["kind"] == "g" else acc.five_segment(par, dec(case["goal"]))
+
+
+# ------------------------------------------------ 'mat': rainflow matrix
+MAT_EXTRA_NAMES = ["node", "gp"]
+
+
+def upgrade_mat(case):
+    """Cases stored before the per-key parameters existed: diag/extra/extra_first -> rows/par/extras/order."""
+    if "par" in case:
+        return case
+    c = dict(case)
+    n = c.pop("extra", 0)
+    c["extras"] = [n] if n else []
+    names = ["from", "to"] if c["layout"] == "ft" else ["range", "mean"]
+    c["order"] = (["node"] + names) if (n and c.pop("extra_first", False)) else names + (["node"] if n else [])
+    c["rows"] = [list(c.pop("diag")[1])]
+    c["par"] = {"levels": []}
+    c.setdefault("shuffle", None)
+    return c
+
+
+def mat_names(case):
+    return ["from", "to"] if case["layout"] == "ft" else ["range", "mean"]
+
+
+def matrix_of(case):
+    """(Series, class level names, names of the further levels).  `counts` are in product order of the canonical level order
+    (class levels, then the further levels); `order` permutes the levels of the index, `perm` the rows."""
+    mst()
+    case = upgrade_mat(case)
     ex = np.array(case["ex"], dtype=float)
     ey = np.array(case["ey"], dtype=float)
-    names = ["from", "to"] if case["layout"] == "ft" else ["range", "mean"]
-    ix = pd.IntervalIndex.from_breaks(ex)
-    iy = pd.IntervalIndex.from_breaks(ey)
-    levels, lnames = [ix, iy], list(names)
-    extra = case.get("extra", 0)
-    if extra:
-        levels = levels + [pd.Index(list(range(extra)))]
-        lnames = lnames + ["node"]
-        if case.get("extra_first"):
-            levels = [levels[2], levels[0], levels[1]]
-            lnames = [lnames[2], lnames[0], lnames[1]]
-    idx = pd.MultiIndex.from_product(levels, names=lnames)
-    vals = np.array(case["counts"], dtype=float)
-    ser = pd.Series(vals, index=idx, name="cycles")
+    names = mat_names(case)
+    extras = list(case.get("extras") or [])
+    enames = MAT_EXTRA_NAMES[:len(extras)]
+    levels = [pd.IntervalIndex.from_breaks(ex), pd.IntervalIndex.from_breaks(ey)] + [pd.Index([7 * i + 3 for i in range(n)]) for n in extras]
+    canon = names + enames
+    idx = pd.MultiIndex.from_product(levels, names=canon)
+    ser = pd.Series(np.array(case["counts"], dtype=float), index=idx, name="cycles")
+    order = case.get("order") or canon
+    if list(order) != canon:
+        ser = ser.reorder_levels(list(order))
     if case.get("nonzero_only"):
         ser = ser[ser.values > 0]
-    return ser, names
+    if case.get("shuffle") is not None and len(ser) > 1:
+        p = list(range(len(ser)))
+        random.Random(case["shuffle"]).shuffle(p)
+        ser = ser.iloc[p]
+    return ser, names, enames
+
+
+def mat_param(case):
+    """The parameter object handed to the accessor and {parameter key: (M, M2)}; parameter key = values of `plevels`."""
+    case = upgrade_mat(case)
+    par = case["par"]
+    rows = case["rows"]
+    ncol = len(rows[0])
+    plevels = list(par.get("levels") or [])
+    if not plevels:
+        return pd.Series(dict(zip(GNAMES, rows[0]))), plevels, {(): gpar(rows[0])}
+    keys = [tuple(k) for k in par["keys"]]
+    idx = pd.Index([k[0] for k in keys], name=plevels[0]) if len(plevels) == 1 else pd.MultiIndex.from_tuples(keys, names=plevels)
+    pf = pd.DataFrame([list(r) for r in rows], columns=GNAMES[:ncol], index=idx, dtype=float)
+    return pf, plevels, {k: gpar(r) for k, r in zip(keys, rows)}
+
+
+def mat_cells(case):
+    """Label-level description of what the accessor has to do, written without pandas alignment:
+    (class level names, result key names, sorted result keys, cells) with cells = list of
+    (result key, (M, M2), range mid resp. |from-to| of the mids, mean, count)."""
+    ser, names, enames = matrix_of(case)
+    _, plevels, pmap = mat_param(case)
+    new_levels = [n for n in plevels if n not in enames]            # levels only the parameter frame has
+    rnames = enames + new_levels
+    inames = list(ser.index.names)
+    a = ser.index.get_level_values(names[0])
+    b = ser.index.get_level_values(names[1])
+    amid, bmid = np.asarray(a.mid, dtype=float), np.asarray(b.mid, dtype=float)
+    if names[0] == "from":
+        rng_, mean_ = np.abs(amid - bmid), (amid + bmid) / 2.0
+    else:
+        rng_, mean_ = amid, bmid
+    evals = [ser.index.get_level_values(n).to_numpy() for n in enames]
+    cells = []
+    for i in range(len(ser)):
+        ekey = {n: evals[k][i].item() for k, n in enumerate(enames)}
+        for pkey, mm in pmap.items():
+            pk = dict(zip(plevels, pkey))
+            if any(pk[n] != ekey[n] for n in plevels if n in ekey):
+                continue
+            rkey = tuple(ekey[n] if n in ekey else pk[n] for n in rnames)
+            cells.append((rkey, mm, float(rng_[i]), float(mean_[i]), float(ser.values[i]), i))
+    rkeys = sorted({c[0] for c in cells})
+    binsize = float(np.hypot(a.length.min(), b.length.min()) / np.sqrt(2.0)) if len(ser) else 0.0
+    return names, rnames, rkeys, cells, binsize
+
+
+def mat_result_by_key(res, rnames):
+    """{result key: [(range interval, class sum) sorted by the interval]} of the accessor's result Series."""
+    names = list(res.index.names)
+    out = {}
+    for t, v in zip(res.index, res.to_numpy()):
+        d = dict(zip(names, t))
+        key = tuple(d[n].item() if hasattr(d[n], "item") else d[n] for n in rnames)
+        out.setdefault(key, []).append((d["range"], float(v)))
+    for k in out:
+        out[k].sort(key=lambda x: (x[0].left, x[0].right))
+    return out
 
 
 class C12(Prop):
@@ -182,19 +358,32 @@ class C12(Prop):
         "src/pylife/stress/collective/load_collective.py",
         "src/pylife/stress/collective/load_histogram.py",
     ]
-    LEAN_MODULES = ["Proofs.C12", "Proofs.C12General"]
+    LEAN_MODULES = ["Proofs.C12", "Proofs.C12General", "Proofs.C12Frames", "Proofs.C12Guard"]
     PARALLEL = 8          # impl_lines / oracle are sharded over forked processes by core.pmap
     THEOREMS = [
         "PylifeVerif.C12.transform_conserves_potential",
+        # FKM-Goodman, every cycle and target, no guard hypothesis (goodman_guard discharges it)
+        "PylifeVerif.Meanstress.goodman_guard",
         "PylifeVerif.C12.goodman_arrives_at_target",
         "PylifeVerif.C12.goodman_eq_closed_form",
+        "PylifeVerif.C12.goodmanDefault_eq_closed_form",
         "PylifeVerif.C12.goodman_fixes_target_R",
         "PylifeVerif.C12.goodman_idempotent",
         "PylifeVerif.C12.goodman_path_independent",
         "PylifeVerif.C12.goodman_monotone_in_amplitude_fixed_R",
         "PylifeVerif.C12.goodman_closed_form_monotone_continuous",
+        # frames (what the interfaces exchange) and the matrix interface as the code composes it
+        "PylifeVerif.C12.mkCycle_valid",
+        "PylifeVerif.C12.mkCycle_amp_mean",
+        "PylifeVerif.C12.mkCycle_rowOf",
+        "PylifeVerif.C12.frameAmp_rowOf",
+        "PylifeVerif.C12.goodman_frame_eq_closed_form",
+        "PylifeVerif.C12.goodman_frame_on_target_ray",
+        "PylifeVerif.C12.goodman_frame_path_independent",
+        "PylifeVerif.C12.goodman_frame_idempotent",
+        "PylifeVerif.C12.goodman_frame_positive",
+        "PylifeVerif.C12.matrixTransform_conserves_cycles",
         # every gap-free diagram with exactly one segment beyond R = 1 (Proofs/C12General.lean): potential constructed, arrival proved
-        "PylifeVerif.C12.stdDiagram_has_potential",
         "PylifeVerif.C12.transform_arrives",
         "PylifeVerif.C12.transform_path_independent",
         "PylifeVerif.C12.transform_idempotent",
@@ -206,41 +395,86 @@ class C12(Prop):
         "PylifeVerif.C12.fiveSegment_idempotent",
         "PylifeVerif.C12.fiveSegment_fixes_target_R",
         "PylifeVerif.C12.fiveSegment_monotone_continuous_fixed_mean",
-        "PylifeVerif.C12.transform_path_independent_partial",
-        "PylifeVerif.C12.transform_fixes_target_partial",
         "PylifeVerif.C12.rebin_conserves_cycles",
+        # the guard = "iso-damage amplitude positive at the cycle and at the target" (Proofs/C12Guard.lean); unguarded five-segment statements
+        "PylifeVerif.C12.transformGuard_iff_pos",
+        "PylifeVerif.C12.stdDiagram_guard_iff",
+        "PylifeVerif.C12.fiveSegment_guard_iff",
+        "PylifeVerif.C12.fiveSegment_guard",
+        "PylifeVerif.C12.fiveSegment_path_independent_of_slopes",
+        "PylifeVerif.C12.fiveSegment_idempotent_of_slopes",
+        # refutation that supports the open finding split-beyond-R1 (not a clause of the property)
         "PylifeVerif.C12.split_beyond_R1_fails_at_witness",
     ]
+    _CUT = ("domain cut: diagram in standard form (StdDiagram: gap-free, exactly one segment (1,inf] beyond R = 1, at least one border "
+            "below 1; GoodD: slopes beyond 1 and left of the first border < 1 and BOTH adjacent iso-damage lines positive at EVERY kink, "
+            "also kinks the cycle never passes); five-segment: FiveSegOK = 0 < R12 < R23 < 1 plus GoodD (the code validates none of this: "
+            "R12 >= R23 raises ValueError in pd.Interval, R12 < 0 AttributeError 'overlap'); the guard TransformGuard is a hypothesis here; "
+            "by transformGuard_iff_pos / stdDiagram_guard_iff / fiveSegment_guard_iff it is EQUIVALENT to the property's own restriction "
+            "(iso-damage potential positive at the cycle and at the target), and it is discharged for FKM-Goodman (goodman_guard) and for "
+            "five-segment diagrams with M4 <= 0 <= M0 < 1, 0 <= M1, M2, M3 (fiveSegment_guard, *_of_slopes)")
     PARTIAL = {
         "PylifeVerif.C12.transform_path_independent":
             "full for every gap-free diagram in standard form (exactly one segment (1,inf] beyond R = 1, at least one border below 1, "
             "positive iso-damage amplitude at every kink) in any listing order; NOT covered: diagrams with several segments beyond R = 1 - there "
             "the real code does not follow the iso-damage lines (open finding split-beyond-R1, refuted in the kernel at the witness: "
-            "split_beyond_R1_fails_at_witness) - and the two-segment diagram {(1,inf], (-inf,1]}",
+            "PylifeVerif.C12.split_beyond_R1_fails_at_witness) - and the two-segment diagram {(1,inf], (-inf,1]}",
+        "PylifeVerif.C12.transform_arrives": _CUT,
+        "PylifeVerif.C12.split_beyond_R1_fails_at_witness": "a refutation at the witness of the open finding, listed so that its axioms are audited",
+        "PylifeVerif.C12.fiveSegment_guard": "five-segment parameter sets with M4 > 0 or a negative slope are covered by the guarded theorems only",
+        "PylifeVerif.C12.transform_idempotent": _CUT,
+        "PylifeVerif.C12.transform_fixes_target": _CUT,
+        "PylifeVerif.C12.transform_monotone_continuous_fixed_mean_std":
+            _CUT + "; the statement is a Lipschitz bound between two amplitudes at which BOTH guards hold",
+        "PylifeVerif.C12.transform_monotone_in_amplitude_fixed_R": _CUT,
+        "PylifeVerif.C12.fiveSegment_path_independent": _CUT,
+        "PylifeVerif.C12.fiveSegment_idempotent": _CUT,
+        "PylifeVerif.C12.fiveSegment_fixes_target_R": _CUT,
+        "PylifeVerif.C12.fiveSegment_monotone_continuous_fixed_mean": _CUT,
+        "PylifeVerif.C12.goodman_closed_form_monotone_continuous":
+            "about the closed form eqAmp (= the code's result by goodman_eq_closed_form), needs M2 <= M; 'interfaces agree' has no theorem: "
+            "the interfaces are pandas glue around the one modelled function and are compared by the correspondence / oracle only",
     }
-    RULE = ("case 'cyc' = (diagram: FKM-Goodman M,M2 | five-segment 7 parameters | from_dict segments; interface range/mean or "
-            "from/to frame; 1 or 2 successive targets incl. -inf and R > 1; cycles incl. those on every segment border and at "
-            "R = -inf): model and HaighDiagram.transform must give bit-identical range/mean/amplitude for every cycle; "
-            "case 'mat' = rainflow matrix (from/to or range/mean classes, optional extra index level) through "
-            "series.meanstress_transform.fkm_goodman: model and code must give the same number of classes and bit-identical class sums. "
-            "Oracle on the real code alone: = textbook Goodman closed form, = segment-walk along iso-damage lines (any diagram), "
+    RULE = ("case 'cyc' = (diagram: FKM-Goodman M[,M2 - default M/3] | five-segment 7 parameters | from_dict segments; interface range/mean or "
+            "from/to frame incl. upper load -0.0; 1 or 2 successive targets incl. -inf and R > 1; cycles incl. those on every segment border, at "
+            "R = -inf, amplitudes 1e-6..1e6, R down to 1+1e-3 and mean/amplitude up to 1e6): model and HaighDiagram.transform must give "
+            "bit-identical range/mean/amplitude for every cycle; "
+            "case 'frm' = collective whose index carries an element key (named index | (key, cycle_number) in any level order | unsorted rows | "
+            "two-level keys) + parameter FRAME with a different row per key (Goodman with/without M2, five-segment with different R12/R23) "
+            "through df.meanstress_transform.*: every result row, found by its label, must be bit-identical to the model run with that key's parameters; "
+            "case 'mat' = rainflow matrix (from/to or range/mean classes, 0-2 further levels in any level order, sparse / shuffled rows, "
+            "non-uniform widths; parameter Series | per-key frame with different rows | frame over a subset of the levels | frame with a level "
+            "of its own) through series.meanstress_transform.fkm_goodman: same number of classes and bit-identical class sums PER KEY of the "
+            "further levels. Oracle on the real code alone: = textbook Goodman closed form, = segment-walk along iso-damage lines (any diagram), "
             "idempotence, fixed target, path independence, monotone + continuous in amplitude, plain function = collective accessor "
-            "(Series and per-row DataFrame parameters) = histogram accessor, matrix total conserved.")
+            "(Series and per-row DataFrame parameters, per key) = histogram accessor, matrix total and per-key totals conserved, class sums = the "
+            "cycles transformed one by one with their key's parameters, operands (collective, matrix, parameter frame) unchanged.")
     ASSUMPTIONS = [
-        "C12: pandas glue (broadcast of the diagram over the collective index, xs/loc selection per segment, IntervalIndex.mid, "
-        "stable sort_values for <= 16 segments) is modelled per cycle: each cycle sees the segments of its own diagram row in the "
-        "order of the sort keys; validated by the correspondence incl. per-row parameter frames",
-        "C12: np.hypot/np.sqrt (class width of the re-binning) are computed by numpy in the harness and handed to the model; "
-        "np.linspace is modelled as i*(max/n) with the last break = max",
-        "C12: targets R = 1 (raises ZeroDivisionError / meaningless) and R = +inf (not a value the collectives produce; the code "
-        "returns amplitude 0 for R > 1 cycles) are outside the modelled domain; cycles have amplitude > 0",
-        "C12: the model follows the code after tools/fixes/C12-beyond-R1-key.diff",
+        "C12: pandas glue (Broadcaster: broadcast of the diagram / the parameter frame over the collective or matrix index; xs/loc selection per "
+        "segment; reorder of index levels) is NOT modelled: the model is per cycle (each cycle sees the segments of its own diagram row in the "
+        "order of the sort keys); the pairing row <-> parameter row <-> result row is validated by the 'frm' and 'mat' correspondence cases, "
+        "which look every result row up by its label and use different parameters for every key",
+        "C12: IntervalIndex.mid = 0.5*(left+right) and a stable sort_values for <= 16 segments (pandas 3.0.5 here; bit identity of the "
+        "segment order depends on it) are assumed as modelled in segKey / insertAsc / insertDesc",
+        "C12: np.hypot/np.sqrt (class width of the re-binning) and the class mids / |from-to| of the class mids are computed by numpy/pandas in the "
+        "harness and handed to the model; np.linspace is modelled as i*(max/n) with the last break = max; int(np.ceil(x)) is Float.ceil + "
+        "toUInt64 in the driver (Driver/Meanstress.lean ceilNat) and Nat.ceil in the theorem matrixTransform_conserves_cycles",
+        "C12: the driver only parses the line and calls the MODEL functions transformChain / frameAmp / matBreaks / matrixTransform "
+        "(Model/Meanstress.lean) with ext = IEEE classification (inf/nan -> ExtR constructors); the theorems instantiate ext = fin over the reals",
+        "C12: targets R = 1 (raises ZeroDivisionError / meaningless) and R = +inf are outside the modelled domain; cycles have amplitude > 0; a "
+        "cycle whose R is +inf cannot arise after tools/fixes/C12-signed-zero-upper.diff except by overflow of lower/upper (|lower/upper| > 1.8e308)",
+        "C12: the model follows the code after tools/fixes/C12-beyond-R1-key.diff (committed 1ef2d1a), C12-signed-zero-upper.diff, "
+        "C12-matrix-index-layout.diff, C12-goodman-default-M2-keeps-operand.diff and C12-five-segment-row-pairing.diff",
+        "C12: the mean classes of the matrix result (means_bins) are checked by the oracle (every class on the target ray), not by the model",
     ]
 
     def __init__(self):
-        self.stats = {"cyc_cases": 0, "mat_cases": 0, "cycles": 0, "by_diagram": {}, "targets": {"-inf": 0, "gt1": 0, "le0": 0, "0..1": 0},
-                      "border_cycles": 0, "neginf_cycles": 0, "beyond1_cycles": 0, "two_goal_cases": 0, "guard_skipped": 0,
-                      "mat_layouts": {}, "mat_classes_total": 0, "oracle_checks": 0}
+        self.stats = {"cyc_cases": 0, "frm_cases": 0, "mat_cases": 0, "cycles": 0, "by_diagram": {},
+                      "targets": {"-inf": 0, "gt1": 0, "le0": 0, "0..1": 0},
+                      "border_cycles": 0, "neginf_cycles": 0, "beyond1_cycles": 0, "negzero_upper_cycles": 0, "default_M2_cases": 0,
+                      "two_goal_cases": 0, "guard_skipped": 0, "frm_layouts": {}, "frm_keys": 0,
+                      "mat_layouts": {}, "mat_params": {}, "mat_orders": {}, "mat_classes_total": 0, "mat_empty": 0, "oracle_checks": 0,
+                      "split_known_mechanism": 0}
         self.exhaustive = False
 
     # ------------------------------------------------------------ generators
@@ -274,40 +508,70 @@ class C12(Prop):
         if c < 0.12:
             return -INF
         if c < 0.3:
-            return rng.choice([1.5, 2.0, 3.0, 10.0, 1.0625, round(rng.uniform(1.01, 8.0), 3)])
+            return rng.choice([1.5, 2.0, 3.0, 10.0, 1.0625, round(rng.uniform(1.01, 8.0), 3), 1.0 + 10.0 ** rng.uniform(-3, 0), 10.0 ** rng.uniform(1, 4)])
         if c < 0.5:
             return rng.choice(b + mids + [-1.0])        # borders and the points where a sort key equals the goal key
         if c < 0.7:
-            return rng.choice([-1.0, -3.0, -0.5, -1.0 / 3.0, round(rng.uniform(-6.0, 0.0), 3)])
-        return rng.choice([0.1, 0.5, 0.3, 0.75, 0.9, 0.95, 1.0 / 3.0, round(rng.uniform(0.0, 0.99), 3)])
+            return rng.choice([-1.0, -3.0, -0.5, -1.0 / 3.0, round(rng.uniform(-6.0, 0.0), 3), -10.0 ** rng.uniform(0, 5)])
+        return rng.choice([0.1, 0.5, 0.3, 0.75, 0.9, 0.95, 1.0 / 3.0, round(rng.uniform(0.0, 0.99), 3), 1.0 - 10.0 ** rng.uniform(-4, -1)])
+
+    def gen_goodman(self, rng):
+        if rng.random() < 0.6:
+            M, M2 = rng.choice(self.GOODMAN)
+        else:
+            M = round(rng.uniform(0.0, 0.95), 3)
+            M2 = round(rng.uniform(0.0, M), 3)
+        return [M] if rng.random() < 0.15 else [M, M2]        # ~15 %: no 'M2' given, the code's default M/3
+
+    def gen_five(self, rng):
+        p = list(rng.choice(self.FIVE))
+        if rng.random() < 0.3:
+            p[5] = round(rng.uniform(0.05, 0.45), 3)
+            p[6] = round(rng.uniform(0.5, 0.95), 3)
+        return p
+
+    def gen_amp(self, rng):
+        c = rng.random()
+        if c < 0.7:
+            return rng.choice([1.0, 2.0, 0.5, 3.0, round(rng.uniform(0.1, 5.0), 3)])
+        return float(f"{10.0 ** rng.uniform(-6, 6):.4g}")        # log-uniform 1e-6 .. 1e6
 
     def gen_cycles(self, rng, diag, n):
         b = self.borders(diag)
         out = []
         for _ in range(n):
-            a = rng.choice([1.0, 2.0, 0.5, 3.0, round(rng.uniform(0.1, 5.0), 3)])
+            a = self.gen_amp(rng)
             c = rng.random()
             if c < 0.25:        # on a segment border / at R = -inf (upper = 0)
                 R = rng.choice(b + [-INF, -1.0])
                 m = -a if R == -INF else a * (1.0 + R) / (1.0 - R)
-            elif c < 0.45:      # R > 1
-                m = -a * rng.choice([1.5, 2.0, 3.0, 1.25, round(rng.uniform(1.01, 4.0), 3)])
+            elif c < 0.45:      # R > 1: mean = -k*amplitude, k from just above 1 (R -> +inf) to 1e3 (R -> 1+)
+                k = rng.choice([1.5, 2.0, 3.0, 1.25, round(rng.uniform(1.01, 4.0), 3), 1.0 + 10.0 ** rng.uniform(-6, -2), 10.0 ** rng.uniform(0.6, 3)])
+                m = -a * k
             else:
-                m = a * rng.choice([-0.75, -0.5, 0.0, 0.5, 0.75, 1.5, 2.0, 3.0, 5.0, 12.0, 50.0, round(rng.uniform(-1.0, 20.0), 3)])
+                m = a * rng.choice([-0.75, -0.5, 0.0, 0.5, 0.75, 1.5, 2.0, 3.0, 5.0, 12.0, 50.0, round(rng.uniform(-1.0, 20.0), 3),
+                                    10.0 ** rng.uniform(1.5, 6)])
             out.append((a, m))
         return out
+
+    def enc_cycles(self, rng, iface, am):
+        cyc = []
+        for a, m in am:
+            if iface == "rm":
+                cyc.append([enc(2.0 * a), enc(m)])
+            else:
+                fr, to = m - a, m + a
+                if to == 0.0 and rng.random() < 0.5:
+                    to = -0.0        # the same load; only the sign bit of the zero differs (e.g. np.round(-1e-9, 3))
+                cyc.append([enc(to), enc(fr)] if rng.random() < 0.5 else [enc(fr), enc(to)])
+        return cyc
 
     def gen_cyc_case(self, rng):
         c = rng.random()
         if c < 0.4:
-            M, M2 = rng.choice(self.GOODMAN) if rng.random() < 0.6 else (lambda M: (M, round(rng.uniform(0.0, M), 3)))(round(rng.uniform(0.0, 0.95), 3))
-            diag = ["g", [M, M2]]
+            diag = ["g", self.gen_goodman(rng)]
         elif c < 0.8:
-            diag = ["f", list(rng.choice(self.FIVE))]
-            if rng.random() < 0.3:
-                p = diag[1]
-                p[5] = round(rng.uniform(0.05, 0.45), 3)
-                p[6] = round(rng.uniform(0.5, 0.95), 3)
+            diag = ["f", self.gen_five(rng)]
         elif c < 0.95:
             diag = json.loads(json.dumps(rng.choice(self.DICTS)))
         else:
@@ -316,47 +580,151 @@ class C12(Prop):
         if rng.random() < 0.5:
             goals.append(self.gen_goal(rng, diag))
         iface = rng.choice(["rm", "rm", "ft"])
-        cyc = []
-        for a, m in self.gen_cycles(rng, diag, rng.choice([1, 4, 8, 12])):
-            if iface == "rm":
-                cyc.append([enc(2.0 * a), enc(m)])
-            else:
-                fr, to = m - a, m + a
-                cyc.append([enc(to), enc(fr)] if rng.random() < 0.5 else [enc(fr), enc(to)])
+        cyc = self.enc_cycles(rng, iface, self.gen_cycles(rng, diag, rng.choice([1, 4, 8, 12])))
         return {"k": "cyc", "diag": diag, "goals": [enc(g) for g in goals], "iface": iface, "cyc": cyc}
 
+    def gen_frm_case(self, rng):
+        kind = rng.choice(["g", "g", "f"])
+        layout = rng.choice(["named", "multi", "multi", "swapped", "mkey"])
+        nk = rng.choice([2, 3, 4])
+        if layout == "mkey":
+            ids = rng.sample([1, 2, 5, 9], 2)
+            keys = [[e, n] for e in ids for n in rng.sample(["a", "b", "c"], 2)][:max(nk, 3)]
+        else:
+            keys = [[e] for e in rng.sample([0, 1, 2, 3, 7, 10, 42, 1000], nk)]
+        knames = ["element_id", "node"][:len(keys[0])]
+        rows, seen = [], set()
+        for _ in keys:       # a DIFFERENT parameter row for every key
+            while True:
+                if kind == "g":
+                    r = self.gen_goodman(rng)
+                    r = [r[0], gpar(r)[1]]
+                else:
+                    r = self.gen_five(rng)
+                    if rng.random() < 0.7:
+                        r[5] = round(rng.uniform(0.05, 0.45), 3)
+                        r[6] = round(rng.uniform(0.5, 0.95), 3)
+                if tuple(r) not in seen:
+                    seen.add(tuple(r))
+                    rows.append(r)
+                    break
+        if kind == "g" and rng.random() < 0.2:
+            rows = [[r[0]] for r in rows]          # frame without an 'M2' column
+            if len({tuple(r) for r in rows}) < len(rows):
+                rows = [[round(0.9 * (i + 1) / (len(rows) + 1), 3)] for i in range(len(rows))]
+        goal = self.gen_goal(rng, [kind, rows[0]])
+        iface = rng.choice(["rm", "rm", "ft"])
+        if layout == "named":
+            ncyc = [1] * len(keys)
+            order = list(knames)
+        else:
+            ncyc = [rng.choice([1, 2, 3]) for _ in keys]
+            order = knames + ["cycle_number"]
+            if layout == "swapped" or (layout == "mkey" and rng.random() < 0.7):
+                while order == knames + ["cycle_number"]:
+                    rng.shuffle(order)
+        cyc = [self.enc_cycles(rng, iface, self.gen_cycles(rng, [kind, r], n)) for r, n in zip(rows, ncyc)]
+        total = sum(ncyc)
+        perm = list(range(total))
+        if rng.random() < 0.6:
+            rng.shuffle(perm)
+        pperm = list(range(len(keys)))
+        if rng.random() < 0.7:
+            rng.shuffle(pperm)
+        return {"k": "frm", "kind": kind, "layout": layout, "keys": keys, "rows": rows, "goal": enc(goal), "iface": iface,
+                "order": order, "cyc": cyc, "perm": perm, "pperm": pperm}
+
+    def gen_breaks(self, rng, lo, w, n, uniform):
+        if uniform:
+            return [lo + i * w for i in range(n + 1)]
+        out = [lo]
+        for _ in range(n):
+            out.append(out[-1] + w * rng.choice([1.0, 1.0, 2.0, 0.5, 1.5]))
+        return out
+
     def gen_mat_case(self, rng):
-        M, M2 = rng.choice(self.GOODMAN)
         layout = rng.choice(["ft", "rm"])
         nx, ny = rng.choice([2, 3, 5, 8]), rng.choice([2, 3, 5, 8])
+        uniform = rng.random() < 0.8
         if layout == "ft":
             lo = rng.choice([-4.0, -1.0, 0.0, -2.5])
             w = rng.choice([0.5, 1.0, 0.25, 0.3, 0.75])
-            ex = [lo + i * w for i in range(nx + 1)]
+            ex = self.gen_breaks(rng, lo, w, nx, uniform)
             wy = w if rng.random() < 0.6 else rng.choice([0.5, 1.0, 0.4])
             lo2 = lo if rng.random() < 0.6 else rng.choice([-3.0, -0.5, 1.0])
-            ey = [lo2 + i * wy for i in range(ny + 1)]
+            ey = self.gen_breaks(rng, lo2, wy, ny, uniform)
         else:
             w = rng.choice([0.5, 1.0, 0.25, 0.3])
-            ex = [i * w for i in range(nx + 1)]
+            ex = self.gen_breaks(rng, 0.0, w, nx, uniform)
             lo = rng.choice([-4.0, -1.0, 0.0, -1.0 / 12.0])
             wy = rng.choice([0.5, 1.0, 0.3])
-            ey = [lo + i * wy for i in range(ny + 1)]
-        extra = rng.choice([0, 0, 0, 2, 3])
-        ncell = nx * ny * max(extra, 1)
+            ey = self.gen_breaks(rng, lo, wy, ny, uniform)
+        extras = rng.choice([[], [], [2], [3], [2], [2, 2], [3, 2]])
+        if extras and nx * ny > 25:
+            nx, ny = min(nx, 5), min(ny, 5)
+            ex, ey = ex[:nx + 1], ey[:ny + 1]
+        enames = MAT_EXTRA_NAMES[:len(extras)]
+        canon = (["from", "to"] if layout == "ft" else ["range", "mean"]) + enames
+        order = list(canon)
+        if rng.random() < 0.6:
+            rng.shuffle(order)
+        ncell = nx * ny * int(np.prod(extras)) if extras else nx * ny
         dens = rng.choice([0.2, 0.6, 1.0])
         counts = [float(rng.randrange(1, 50)) if rng.random() < dens else 0.0 for _ in range(ncell)]
-        if not any(counts):
+        if not any(counts) and rng.random() < 0.8:
             counts[rng.randrange(ncell)] = 7.0
+        ne = int(np.prod(extras)) if extras else 1
+        if any(counts):
+            # every key of the further levels keeps an occupied class (a parameter-frame key that is absent from the signal is the
+            # Broadcaster's business - C13 -, it raises IndexError in the collective accessor as well)
+            for e in range(ne):
+                if not any(counts[e::ne]):
+                    counts[e + ne * rng.randrange(ncell // ne)] = float(rng.randrange(1, 9))
+        # parameters
+        evals = [[7 * i + 3 for i in range(n)] for n in extras]
+        c = rng.random()
+        if not extras:
+            pk = "series" if c < 0.75 else "frame-new"
+        else:
+            pk = "series" if c < 0.3 else "frame" if c < 0.75 else "frame-sub" if (c < 0.9 and len(extras) == 2) else "frame-new"
+        if pk == "series":
+            par = {"levels": []}
+            nrows = 1
+        elif pk == "frame":
+            lv = list(enames)
+            if len(lv) == 2 and rng.random() < 0.5:
+                lv.reverse()
+            keys = [list(k) for k in itertools.product(*[evals[enames.index(n)] for n in lv])]
+            rng.shuffle(keys)
+            par = {"levels": lv, "keys": keys}
+            nrows = len(keys)
+        elif pk == "frame-sub":
+            n = rng.choice(enames)
+            keys = [[v] for v in evals[enames.index(n)]]
+            rng.shuffle(keys)
+            par = {"levels": [n], "keys": keys}
+            nrows = len(keys)
+        else:
+            keys = [[v] for v in rng.sample([1, 2, 5, 11], rng.choice([1, 2, 3]))]
+            par = {"levels": ["element_id"], "keys": keys}
+            nrows = len(keys)
+        rows, seen = [], set()
+        while len(rows) < nrows:
+            M, M2 = rng.choice(self.GOODMAN) if rng.random() < 0.7 else (lambda M: (M, round(rng.uniform(0.0, M), 3)))(round(rng.uniform(0.0, 0.95), 3))
+            if (M, M2) not in seen:
+                seen.add((M, M2))
+                rows.append([M, M2])
+        if rng.random() < 0.15:
+            rows = [[r[0]] for r in rows] if len({r[0] for r in rows}) == len(rows) else [[round(0.9 * (i + 1) / (nrows + 1), 3)] for i in range(nrows)]
         goal = rng.choice([-1.0, 0.0, -1.0 / 3.0, 1.0 / 3.0, 0.5, -0.5, 0.9, round(rng.uniform(-1.0, 0.99), 3)])
-        return {"k": "mat", "diag": ["g", [M, M2]], "goal": goal, "layout": layout, "ex": ex, "ey": ey, "counts": counts,
-                "extra": extra, "extra_first": rng.random() < 0.5, "nonzero_only": rng.random() < 0.4}
+        return {"k": "mat", "goal": goal, "layout": layout, "ex": ex, "ey": ey, "counts": counts, "extras": extras, "order": order,
+                "par": par, "rows": rows, "nonzero_only": rng.random() < 0.4, "shuffle": rng.randrange(1 << 30) if rng.random() < 0.4 else None}
 
     def generate(self, rng, tier):
-        n_cyc, n_mat = (150, 40) if tier == "quick" else (1700, 350)
+        n_cyc, n_frm, n_mat = (120, 32, 40) if tier == "quick" else (1200, 300, 350)
         cases = []
         # systematic grid: every Goodman / five-segment parameter set x structured targets x structured cycles
-        for diag in [["g", list(p)] for p in self.GOODMAN[:4]] + [["f", list(p)] for p in self.FIVE[:3]]:
+        for diag in [["g", list(p)] for p in self.GOODMAN[:4]] + [["g", [0.45]]] + [["f", list(p)] for p in self.FIVE[:3]]:
             b = self.borders(diag)
             mids = [0.5 * (x + y) for x, y in zip(b, b[1:] + [1.0])]
             targets = [-INF, -3.0, -1.0] + b + mids + [0.96875, 1.5, 4.0]
@@ -364,53 +732,66 @@ class C12(Prop):
             cyc += [[2.0, -3.0], [2.0, -1.5], [1.0, 6.0]]
             for g in targets:
                 cases.append({"k": "cyc", "diag": diag, "goals": [enc(g)], "iface": "rm", "cyc": cyc})
+        # upper load -0.0 in a from/to frame, every target region
+        for g in (-INF, -1.0, 0.0, 0.5, 2.0):
+            cases.append({"k": "cyc", "diag": ["g", [0.3, 0.1]], "goals": [enc(g)], "iface": "ft",
+                          "cyc": [[-2.0, -0.0], [-0.0, -3.0], [-2.0, 0.0], [1.0, 3.0]]})
+        # the matrix index layouts: every order of (class levels, node) x {Series, per-node frame}
+        for layout in ("rm", "ft"):
+            canon = (["range", "mean"] if layout == "rm" else ["from", "to"]) + ["node"]
+            ex = [0.0, 1.0, 2.0, 3.0] if layout == "rm" else [-2.0, -1.0, 0.0, 1.0]
+            ey = [-2.0, 0.0, 2.0] if layout == "rm" else [-1.0, 0.0, 1.0, 2.0]
+            n = (len(ex) - 1) * (len(ey) - 1) * 3
+            for order in itertools.permutations(canon):
+                for par, rows in (({"levels": []}, [[0.3, 0.1]]),
+                                  ({"levels": ["node"], "keys": [[10], [3], [17]]}, [[0.3, 0.1], [0.5, 0.25], [0.9, 0.0]])):
+                    cases.append({"k": "mat", "goal": -1.0 if layout == "rm" else 0.25, "layout": layout, "ex": ex, "ey": ey,
+                                  "counts": [float(i + 1) for i in range(n)], "extras": [3], "order": list(order), "par": par,
+                                  "rows": rows, "nonzero_only": False, "shuffle": None})
         self.exhaustive = False
         for _ in range(n_cyc):
             cases.append(self.gen_cyc_case(rng))
+        for _ in range(n_frm):
+            cases.append(self.gen_frm_case(rng))
         for _ in range(n_mat):
             cases.append(self.gen_mat_case(rng))
         for i, c in enumerate(cases):      # the expensive oracle parts (monotony, interfaces) on every 4th case
             if c["k"] == "cyc" and i % 4 == 0:
                 c["deep"] = True
+            if c["k"] == "cyc" and (i % 2 == 0 or (c["diag"][0] == "g" and len(c["diag"][1]) == 1)):
+                c["acc"] = True        # accessor / plain function / operands-unchanged clause: every 2nd case and every default-M2 case
         return cases
 
     # ------------------------------------------------------------ correspondence
+    @staticmethod
+    def _mst_line(iface, diag, goals, cyc):
+        kind, p = diag
+        toks = ["mst", iface, kind, str(len(p))] + [f2h(dec(x)) for x in p]
+        toks += [str(len(goals))] + [f2h(dec(g)) for g in goals]
+        for c in cyc:
+            toks += [f2h(dec(c[0])), f2h(dec(c[1]))]
+        return " ".join(toks)
+
     def model_lines(self, case):
         if case["k"] == "cyc":
-            kind, p = case["diag"]
-            toks = ["mst", case["iface"], kind, str(len(p))] + [f2h(dec(x)) for x in p]
-            toks += [str(len(case["goals"]))] + [f2h(dec(g)) for g in case["goals"]]
-            for c in case["cyc"]:
-                toks += [f2h(dec(c[0])), f2h(dec(c[1]))]
-            return [" ".join(toks)]
-        ser, names = matrix_of(case)
-        if len(ser) == 0:
+            return [self._mst_line(case["iface"], case["diag"], case["goals"], case["cyc"])]
+        if case["k"] == "frm":       # the model is per cycle: one line per key with that key's parameters
+            return [self._mst_line(case["iface"], frm_diag(case, i), [case["goal"]], cyc) for i, cyc in enumerate(case["cyc"])]
+        case = upgrade_mat(case)
+        names, rnames, rkeys, cells, binsize = mat_cells(case)
+        if not cells:
             return []
-        rng_, mean_, binsize = self._mat_inputs(ser, names)
-        kind, p = case["diag"]
-        toks = ["mstmat", kind, str(len(p))] + [f2h(x) for x in p] + [f2h(case["goal"]), f2h(binsize)]
-        for r, m, n in zip(rng_, mean_, ser.values):
-            toks += [f2h(r), f2h(m), f2h(n)]
+        toks = ["mstmat", f2h(case["goal"]), f2h(binsize), str(len(rkeys))]
+        for rkey, (M, M2), r, m, n, _ in cells:
+            toks += [str(rkeys.index(rkey)), "2", f2h(M), f2h(M2), f2h(r), f2h(m), f2h(n)]
         return [" ".join(toks)]
-
-    @staticmethod
-    def _mat_inputs(ser, names):
-        a = ser.index.get_level_values(names[0])
-        b = ser.index.get_level_values(names[1])
-        if names[0] == "from":
-            rng_ = np.abs(np.asarray(a.mid) - np.asarray(b.mid))
-            mean_ = (np.asarray(a.mid) + np.asarray(b.mid)) / 2.0
-        else:
-            rng_ = np.asarray(a.mid, dtype=float)
-            mean_ = np.asarray(b.mid, dtype=float)
-        binsize = float(np.hypot(a.length.min(), b.length.min()) / np.sqrt(2.0))
-        return rng_, mean_, binsize
 
     def impl_lines(self, case):
         try:
             return self._impl_lines(case)
-        except (TypeError, ValueError, KeyError, IndexError, ZeroDivisionError, AttributeError) as e:
-            return [f"error {type(e).__name__}"]
+        except (TypeError, ValueError, KeyError, IndexError, ZeroDivisionError, AttributeError, AssertionError) as e:
+            n = len(case["cyc"]) if case["k"] == "frm" else 1
+            return [f"error {type(e).__name__}"] * n
 
     def _impl_lines(self, case):
         s = self.stats
@@ -418,6 +799,7 @@ class C12(Prop):
             s["cyc_cases"] += 1
             s["cycles"] += len(case["cyc"])
             s["by_diagram"][case["diag"][0]] = s["by_diagram"].get(case["diag"][0], 0) + 1
+            s["default_M2_cases"] += case["diag"][0] == "g" and len(case["diag"][1]) == 1
             s["two_goal_cases"] += len(case["goals"]) > 1
             for g in case["goals"]:
                 g = dec(g)
@@ -425,6 +807,8 @@ class C12(Prop):
             bset = set(self.borders(case["diag"]))
             for c in case["cyc"]:
                 a, m = amp_mean(case["iface"], c)
+                if case["iface"] == "ft" and is_negzero(max(dec(c[0]), dec(c[1]))) and (is_negzero(dec(c[0])) or is_negzero(dec(c[1]))):
+                    s["negzero_upper_cycles"] += 1
                 if m + a == 0:
                     s["neginf_cycles"] += 1
                 elif m + a < 0:
@@ -434,35 +818,110 @@ class C12(Prop):
             frame = run_chain(case["diag"], case["iface"], case["cyc"], case["goals"])[-1]
             amp = frame.load_collective.amplitude.to_numpy()
             return [" ".join(f"{f2h(a)} {f2h(r)} {f2h(m)}" for a, r, m in zip(amp, frame["range"].to_numpy(), frame["mean"].to_numpy()))]
-        ser, names = matrix_of(case)
-        if len(ser) == 0:
+        if case["k"] == "frm":
+            s["frm_cases"] += 1
+            s["frm_keys"] += len(case["keys"])
+            s["cycles"] += sum(len(c) for c in case["cyc"])
+            lk = f"{case['kind']}:{case['layout']}:{'/'.join(case['order'])}"
+            s["frm_layouts"][lk] = s["frm_layouts"].get(lk, 0) + 1
+            s["default_M2_cases"] += case["kind"] == "g" and len(case["rows"][0]) == 1
+            df, par, labels = frm_frames(case)
+            got = frm_result_by_label(case, frm_call(case, df, par))
+            if len(got) != len(labels):
+                return [f"error result has {len(got)} rows, the collective {len(labels)}"] * len(case["cyc"])
+            out = []
+            for key, cyc in zip(case["keys"], case["cyc"]):
+                out.append(" ".join("{} {} {}".format(*map(f2h, got[tuple(key) + (j,)])) for j in range(len(cyc))))
+            return out
+        case = upgrade_mat(case)
+        names, rnames, rkeys, cells, binsize = mat_cells(case)
+        ser, _, enames = matrix_of(case)
+        if not cells:
+            s["mat_empty"] += 1
             return []
         s["mat_cases"] += 1
-        key = case["layout"] + ("+extra" if case.get("extra") else "")
+        par, plevels, _ = mat_param(case)
+        key = case["layout"] + ("+" + "+".join(enames) if enames else "")
         s["mat_layouts"][key] = s["mat_layouts"].get(key, 0) + 1
-        kind, p = case["diag"]
-        res = ser.meanstress_transform.fkm_goodman(pd.Series({"M": p[0], "M2": p[1]}), case["goal"]).to_pandas()
-        per_class = res.groupby(level="range", sort=False, observed=True).sum() if case.get("extra") else res
-        per_class = per_class.sort_index(level="range") if case.get("extra") else per_class
-        s["mat_classes_total"] += len(per_class)
-        return [" ".join([str(len(per_class))] + [f2h(v) for v in per_class.to_numpy()])]
+        pk = ("series" if not plevels else "frame:" + "+".join(plevels)) + (":noM2" if len(case["rows"][0]) == 1 else "")
+        s["mat_params"][pk] = s["mat_params"].get(pk, 0) + 1
+        ok = "/".join(ser.index.names)
+        s["mat_orders"][ok] = s["mat_orders"].get(ok, 0) + 1
+        res = ser.meanstress_transform.fkm_goodman(par, case["goal"]).to_pandas()
+        if len(res) == 0:
+            return ["0"]        # only classes of amplitude 0: max range 0, no result class
+        by = mat_result_by_key(res, rnames)
+        if sorted(by) != rkeys:
+            return [f"error result keys {sorted(by)} expected {rkeys}"]
+        n = len(by[rkeys[0]])
+        s["mat_classes_total"] += n * len(rkeys)
+        toks = [str(n)]
+        for k in rkeys:
+            if len(by[k]) != n:
+                return [f"error key {k} has {len(by[k])} classes, key {rkeys[0]} {n}"]
+            toks += [f2h(v) for _, v in by[k]]
+        return [" ".join(toks)]
+
+    def compare(self, case, model_out, impl_out):
+        if case["k"] == "frm":      # the accessor returns a from/to collective: from = mean - range/2, to = mean + range/2
+            conv = []
+            for line in model_out:
+                t = line.split()
+                o = []
+                for a, r, m in zip(t[0::3], t[1::3], t[2::3]):
+                    r_, m_ = h2f(r), h2f(m)
+                    o += [a, f2h(m_ - r_ / 2.0), f2h(m_ + r_ / 2.0)]
+                conv.append(" ".join(o))
+            model_out = conv
+        return super().compare(case, model_out, impl_out)
 
     def nontrivial(self, case, model_out):
-        """cyc: at least one cycle's amplitude is changed by the transformation; mat: at least two classes."""
+        """cyc/frm: at least one cycle's amplitude is changed by the transformation; mat: at least two classes."""
+        if not model_out:
+            return None
         if case["k"] == "cyc":
-            if not model_out:
-                return None
             toks = model_out[0].split()
-            amps_out = toks[0::3]
             amps_in = [f2h(amp_mean(case["iface"], c)[0]) for c in case["cyc"]]
-            moved = any(a != b for a, b in zip(amps_in, amps_out))
+            moved = any(a != b for a, b in zip(amps_in, toks[0::3]))
             return json.dumps(case, sort_keys=True) if moved else None
-        return json.dumps(case, sort_keys=True) if model_out and not model_out[0].startswith(("0", "1 ")) else None
+        if case["k"] == "frm":
+            moved = False
+            for line, cyc in zip(model_out, case["cyc"]):
+                amps_in = [f2h(amp_mean(case["iface"], c)[0]) for c in cyc]
+                moved = moved or any(a != b for a, b in zip(amps_in, line.split()[0::3]))
+            return json.dumps(case, sort_keys=True) if moved else None
+        return json.dumps(case, sort_keys=True) if not model_out[0].startswith(("0", "1 ")) else None
 
     # ------------------------------------------------------------ the property on the real code
-    def classify(self, case, g, a, m):
-        if haigh_segments(case["diag"]) is None:
-            return "split-beyond-R1"
+    def classify(self, case, g, a, m, got=None, segs_raw=None):
+        if case["k"] == "cyc" and case["iface"] == "ft" and m + a == 0 and any(
+                is_negzero(dec(v)) for c in case["cyc"] for v in c if amp_mean("ft", c) == (a, m)) and got == 0.0:
+            return "signed-zero-upper"          # the cycle is annihilated (amplitude 0) because its upper load is -0.0
+        if haigh_segments(case["diag"]) is None if case["k"] == "cyc" else False:
+            # open finding, tied to its mechanism: a cycle beyond R = 1 is moved to R = -inf with the slope of ITS segment only,
+            # or the target lies beyond R = 1
+            if g > 1.0:
+                return "split-beyond-R1"
+            if got is not None and segs_raw is not None:
+                s = m / a
+                bey = [x for x in segs_raw if x[1] <= -1.0]          # (x_lo, x_hi, M) of the segments beyond R = 1, left to right
+                rest = [x for x in segs_raw if x[0] >= -1.0]
+                if m + a < 0:          # (a) the cycle is moved to R = -inf with the slope of ITS segment all the way
+                    for Mx in [Mx for lo, hi, Mx in bey if lo <= s <= hi]:
+                        e = walk([(-INF, -1.0, Mx)] + rest, a, m, g)
+                        if e == e and close(e, got, 1e-9, a):
+                            self.stats["split_known_mechanism"] += 1
+                            return "split-beyond-R1"
+                if m + a <= 0 and len(bey) == 2 and s >= bey[0][1]:
+                    # (b) a cycle in the outer segment (b, inf] (incl. one AT R = -inf, pushed over the flipping point) is first moved
+                    #     BACKWARDS to R = b with the slope of (b, inf] and then to R = -inf with the slope of (1, b]
+                    (_, xb, M1), (_, _, Mb) = bey
+                    c = (1.0 + Mb * -1.0) / (1.0 + Mb * xb) * (1.0 + M1 * xb) / (1.0 + M1 * -1.0)
+                    e = walk(segs_raw, a, m, g)
+                    if e == e and close(e * c, got, 1e-9, a):
+                        self.stats["split_known_mechanism"] += 1
+                        return "split-beyond-R1"
+            return "C12"
         if g == -INF and m + a < 0:
             return "neginf-target-beyond-R1"
         return "C12"
@@ -472,9 +931,34 @@ class C12(Prop):
         try:
             if case["k"] == "mat":
                 return self.oracle_mat(case)
+            if case["k"] == "frm":
+                return self.oracle_frm(case)
             return self.oracle_cyc(case)
-        except (TypeError, ValueError, KeyError, IndexError, ZeroDivisionError, AttributeError) as e:
-            return (f"the implementation raised / returned a malformed result: {type(e).__name__}: {str(e)[:200]}", "C12")
+        except (TypeError, ValueError, KeyError, IndexError, ZeroDivisionError, AttributeError, AssertionError) as e:
+            klass = "C12"
+            if case["k"] == "mat" and upgrade_mat(case)["par"].get("levels"):
+                msg = str(e)
+                if (isinstance(e, ValueError) and "NaN to integer" in msg) or (isinstance(e, AssertionError) and "new_levels" in msg):
+                    klass = "matrix-index-layout"     # tools/fixes/C12-matrix-index-layout.diff
+            return (f"the implementation raised / returned a malformed result: {type(e).__name__}: {str(e)[:200]}", klass)
+
+    def _check_cycle(self, case, diag, walk_segs, g, a, m, r, mm):
+        """One transformed cycle against the specification.  None or (description, a, m)."""
+        e = walk(walk_segs, a, m, g) if a > 0 else math.nan
+        self.stats["oracle_checks"] += 1
+        if e != e:
+            self.stats["guard_skipped"] += 1
+            return "skip"
+        if not close(e, r, 1e-9, a):
+            return f"target R={g}: cycle amplitude={a} mean={m}: transformed amplitude {r}, iso-damage walk gives {e}"
+        if not close(mm, r * pos(g), 1e-9, a):
+            return f"target R={g}: cycle amplitude={a} mean={m}: result mean {mm} is not on the target ray (amplitude {r})"
+        if diag[0] == "g":
+            M_, M2_ = gpar(diag[1])
+            cf = goodman_closed_form(a, m, M_, M2_, g)
+            if not close(cf, r, 1e-9, a):
+                return f"Goodman M={diag[1]} (M2 = {M2_}) target R={g}: amplitude={a} mean={m}: code {r}, closed form {cf}"
+        return None
 
     def oracle_cyc(self, case):
         M = mst()
@@ -496,41 +980,71 @@ class C12(Prop):
         for g, fr in zip(goals, frames):
             nxt = []
             for (a, m), r, mm in zip(cur, fr["range"].to_numpy() / 2.0, fr["mean"].to_numpy()):
-                e = walk(walk_segs, a, m, g) if a > 0 else math.nan
-                self.stats["oracle_checks"] += 1
-                if e != e:
-                    self.stats["guard_skipped"] += 1
+                if a <= 0:
                     nxt.append((0.0, 0.0))
                     continue
-                if not close(e, r):
-                    return (f"target R={g}: cycle amplitude={a} mean={m}: transformed amplitude {r}, iso-damage walk gives {e}",
-                            self.classify(case, g, a, m))
-                if not close(mm, r * pos(g)):
-                    return (f"target R={g}: cycle amplitude={a} mean={m}: result mean {mm} is not on the target ray (amplitude {r})",
-                            self.classify(case, g, a, m))
-                if diag[0] == "g":
-                    cf = goodman_closed_form(a, m, diag[1][0], diag[1][1], g)
-                    if not close(cf, r):
-                        return (f"Goodman M={diag[1]} target R={g}: amplitude={a} mean={m}: code {r}, closed form {cf}", "C12")
+                d = self._check_cycle(case, diag, walk_segs, g, a, m, r, mm)
+                if d == "skip":
+                    nxt.append((0.0, 0.0))
+                    continue
+                if d is not None:
+                    k = self.classify(case, g, a, m, got=float(r), segs_raw=walk_segs)
+                    if not self.known(k, d):
+                        return (d, k)
+                    nxt.append((0.0, 0.0))        # known finding on this cycle: the later clauses skip it
+                    continue
                 nxt.append((r, mm))
             cur = nxt
-        if segs is None:
-            return None
         hd = make_hd(diag)
         last, g = frames[-1], goals[-1]
         # (2) idempotence / a cycle at the target R is unchanged
         again = hd.transform(last, g)
         for i, (r0, r1) in enumerate(zip(last["range"].to_numpy(), again["range"].to_numpy())):
-            if cur[i][0] > 0 and not close(r0, r1):
-                return (f"not idempotent: target R={g}, cycle {cyc[i]}: range {r0} -> {r1}", self.classify(case, g, *am[i]))
+            if cur[i][0] > 0 and not close(r0, r1, 1e-9, cur[i][0]):
+                d = f"not idempotent: target R={g}, cycle {cyc[i]}: range {r0} -> {r1}"
+                # the cycle that is transformed the second time is (r0/2, mean of the first result)
+                k = self.classify(case, g, r0 / 2.0, float(last["mean"].to_numpy()[i]), got=r1 / 2.0, segs_raw=walk_segs)
+                if not self.known(k, d):
+                    return (d, k)
         # (3) path independence: R1 then R2 = R2 directly
         if len(goals) == 2:
             direct = run_chain(diag, iface, cyc, [goals[1]])[0]
             for i, (r0, r1) in enumerate(zip(last["range"].to_numpy(), direct["range"].to_numpy())):
-                if cur[i][0] > 0 and not close(r0, r1):
-                    return (f"path dependent: R1={goals[0]} then R2={goals[1]} gives range {r0}, directly {r1}; cycle {cyc[i]}",
-                            self.classify(case, goals[0], *am[i]))
+                if cur[i][0] > 0 and not close(r0, r1, 1e-9, cur[i][0]):
+                    d = f"path dependent: R1={goals[0]} then R2={goals[1]} gives range {r0}, directly {r1}; cycle {cyc[i]}"
+                    k = self.classify(case, goals[0], *am[i])
+                    if segs is None and (goals[0] == -INF or goals[0] > 1.0 or sum(am[i]) <= 0):
+                        k = "split-beyond-R1"      # the intermediate or the original cycle lies at / beyond the flipping point
+                    if not self.known(k, d):
+                        return (d, k)
+        if segs is None:
+            return None
         g0 = goals[0]
+        # (5a) operands unchanged, plain function = collective accessor (Series parameters) on EVERY Goodman / five-segment case
+        a_arr = np.array([x[0] for x in am])
+        m_arr = np.array([x[1] for x in am])
+        if diag[0] in "gf" and (case.get("acc") or case.get("deep")):
+            names = GNAMES if diag[0] == "g" else FNAMES
+            par = pd.Series(dict(zip(names, diag[1])))
+            par0 = par.copy()
+            df = frame_of(iface, cyc)
+            df0 = df.copy()
+            acc = (df.meanstress_transform.fkm_goodman(par, g0) if diag[0] == "g" else df.meanstress_transform.five_segment(par, g0)).amplitude.to_numpy()
+            if not (list(par.index) == list(par0.index) and par.equals(par0)):
+                return (f"the accessor modified the caller's parameter Series: {par0.to_dict()} -> {par.to_dict()}", "default-M2-writes-operand")
+            if not df.equals(df0):
+                return ("the accessor modified the caller's collective", "C12")
+            base = frames[0].load_collective.amplitude.to_numpy()
+            if len(acc) != len(base) or any(f2h(x) != f2h(y) for x, y in zip(acc, base)):
+                return (f"interfaces disagree: collective accessor (Series parameters) {list(acc)} vs HaighDiagram.transform {list(base)} (target R={g0})", "C12")
+            if iface == "rm":
+                pr = dict(zip(names, diag[1]))
+                if diag[0] == "g":
+                    plain = M.fkm_goodman(a_arr, m_arr, pr["M"], gpar(diag[1])[1], g0)
+                else:
+                    plain = M.five_segment_correction(a_arr, m_arr, R_goal=g0, **pr)
+                if len(plain) != len(base) or any(f2h(x) != f2h(y) for x, y in zip(plain, base)):
+                    return (f"interfaces disagree: plain function {list(plain)} vs HaighDiagram.transform {list(base)} (target R={g0})", "C12")
         if not case.get("deep"):
             return None
         # (4) monotone and continuous in the amplitude (fixed mean), first target
@@ -542,87 +1056,135 @@ class C12(Prop):
             e = [walk(segs, x, m, g0) for x in amps]
             if any(v != v for v in e):
                 continue
-            t = M.fkm_goodman if diag[0] == "g" else None
             fr = hd.transform(pd.DataFrame({"range": 2.0 * np.array(amps), "mean": m}), g0)
             r = fr["range"].to_numpy() / 2.0
             for i in range(1, len(amps)):
-                if r[i] < r[i - 1] - 1e-9 * max(1.0, r[i]):
+                if r[i] < r[i - 1] - 1e-9 * max(r[i], r[i - 1]):
                     return (f"not monotone in amplitude: mean={m} target R={g0}: amplitudes {amps[i-1]}, {amps[i]} -> {r[i-1]}, {r[i]}",
                             self.classify(case, g0, amps[i], m))
-                if amps[i] - amps[i - 1] <= 3e-9 * amps[i] and abs(r[i] - r[i - 1]) > 1e-6 * max(1.0, r[i]):
+                if amps[i] - amps[i - 1] <= 3e-9 * amps[i] and abs(r[i] - r[i - 1]) > 1e-6 * max(r[i], r[i - 1]):
                     return (f"jump in amplitude: mean={m} target R={g0}: amplitudes {amps[i-1]}, {amps[i]} -> {r[i-1]}, {r[i]}",
                             self.classify(case, g0, amps[i], m))
-        # (5) interfaces agree: plain function = collective accessor (Series / per-row DataFrame parameters) = histogram accessor
-        a_arr = np.array([x[0] for x in am])
-        m_arr = np.array([x[1] for x in am])
-        df = pd.DataFrame({"range": 2.0 * a_arr, "mean": m_arr})
-        if diag[0] in "gf":
-            names = ["M", "M2"] if diag[0] == "g" else ["M0", "M1", "M2", "M3", "M4", "R12", "R23"]
-            par = dict(zip(names, diag[1]))
-            if diag[0] == "g":
-                plain = M.fkm_goodman(a_arr, m_arr, par["M"], par["M2"], g0)
-                acc = df.meanstress_transform.fkm_goodman(pd.Series(par), g0).amplitude.to_numpy()
-                dfi = df.copy()
-                dfi.index.name = "element_id"
-                acc2 = dfi.meanstress_transform.fkm_goodman(pd.DataFrame({k: [v] * len(df) for k, v in par.items()}, index=dfi.index), g0).amplitude.to_numpy()
-            else:
-                plain = M.five_segment_correction(a_arr, m_arr, R_goal=g0, **par)
-                acc = df.meanstress_transform.five_segment(pd.Series(par), g0).amplitude.to_numpy()
-                dfi = df.copy()
-                dfi.index.name = "element_id"
-                acc2 = dfi.meanstress_transform.five_segment(pd.DataFrame({k: [v] * len(df) for k, v in par.items()}, index=dfi.index), g0).amplitude.to_numpy()
-            base = hd.transform(df, g0).load_collective.amplitude.to_numpy()
-            for nm, arr in (("plain function", plain), ("collective accessor (Series parameters)", acc),
-                            ("collective accessor (per-row DataFrame parameters)", acc2)):
-                if len(arr) != len(base) or any(f2h(x) != f2h(y) for x, y in zip(arr, base)):
-                    return (f"interfaces disagree: {nm} {list(arr)} vs HaighDiagram.transform {list(base)} (target R={g0})", "C12")
+        # (5b) histogram accessor on one-cell-per-cycle matrices: class mid = the cycle
         if diag[0] == "g" and len(am) >= 1:
-            # histogram accessor on one-cell-per-cycle matrices: class mid = the cycle
             a, m = am[0]
-            w = 0.25
+            w = 0.25 * a
             idx = pd.MultiIndex.from_arrays([pd.IntervalIndex.from_arrays([2 * a - w], [2 * a + w]),
                                              pd.IntervalIndex.from_arrays([m - w], [m + w])], names=["range", "mean"])
             ser = pd.Series([3.0], index=idx, name="cycles")
             rr = hd.transform(ser, g0)["range"].to_numpy()[0] / 2.0
             e = hd.transform(pd.DataFrame({"range": [2 * a], "mean": [m]}), g0)["range"].to_numpy()[0] / 2.0
-            if not close(rr, e):
+            if not close(rr, e, 1e-9, a):
                 return (f"histogram interface {rr} vs collective interface {e} for amplitude={a} mean={m} target R={g0}", "C12")
         return None
 
+    def oracle_frm(self, case):
+        """Collective with an element key + parameter frame with a different row per key: every result row, looked up by its
+        label, = the plain function with that key's parameters (bit-identical), = specification; operands unchanged."""
+        M = mst()
+        g = dec(case["goal"])
+        df, par, labels = frm_frames(case)
+        df0, par0 = df.copy(), par.copy()
+        lc = frm_call(case, df, par)
+        if list(par.columns) != list(par0.columns) or not par.equals(par0):
+            return (f"the accessor modified the caller's parameter frame: columns {list(par0.columns)} -> {list(par.columns)}", "default-M2-writes-operand")
+        if not df.equals(df0):
+            return ("the accessor modified the caller's collective", "C12")
+        got = frm_result_by_label(case, lc)
+        if sorted(got) != sorted(labels):
+            return (f"the result has the rows {sorted(got)[:6]}.. ({len(got)}), the collective {sorted(labels)[:6]}.. ({len(labels)})", "C12")
+        for i, (key, cyc) in enumerate(zip(case["keys"], case["cyc"])):
+            diag = frm_diag(case, i)
+            segs = haigh_segments(diag)
+            am = [amp_mean(case["iface"], c) for c in cyc]
+            a_arr = np.array([x[0] for x in am])
+            m_arr = np.array([x[1] for x in am])
+            if case["iface"] == "rm":
+                if case["kind"] == "g":
+                    plain = M.fkm_goodman(a_arr, m_arr, diag[1][0], gpar(diag[1])[1], g)
+                else:
+                    plain = M.five_segment_correction(a_arr, m_arr, R_goal=g, **dict(zip(FNAMES, diag[1])))
+            else:
+                plain = make_hd(diag).transform(frame_of("ft", cyc), g).load_collective.amplitude.to_numpy()
+            for j, (a, m) in enumerate(am):
+                amp, fr, to = got[tuple(key) + (j,)]
+                if f2h(amp) != f2h(float(plain[j])):
+                    # tools/fixes/C12-five-segment-row-pairing.diff: five_segment paired slopes and R12/R23 of different rows of a
+                    # parameter frame with a two-level index whose rows are not grouped in sorted order
+                    klass = "five-segment-param-row-pairing" if (case["kind"] == "f" and len(key) == 2) else "C12"
+                    return (f"key {key} cycle {j} (amplitude {a}, mean {m}), parameters {diag[1]}, target R={g}: accessor with the parameter "
+                            f"frame gives {amp}, the same cycle alone with this key's parameters {float(plain[j])}", klass)
+                d = self._check_cycle(case, diag, segs, g, a, m, amp, (fr + to) / 2.0)
+                if d not in (None, "skip"):
+                    return (f"key {key}: " + d, "C12")
+        return None
+
     def oracle_mat(self, case):
-        ser, names = matrix_of(case)
-        kind, p = case["diag"]
-        if len(ser) > 0 and float(np.max(self._mat_inputs(ser, names)[0])) <= 0:
+        M = mst()
+        case = upgrade_mat(case)
+        ser, names, enames = matrix_of(case)
+        _, rnames, rkeys, cells, binsize = mat_cells(case)
+        par, plevels, pmap = mat_param(case)
+        goal = case["goal"]
+        if cells and max(c[2] for c in cells) <= 0:
             return None      # only cycles of amplitude 0: outside the property's quantifier (the code returns an empty result)
-        res = ser.meanstress_transform.fkm_goodman(pd.Series({"M": p[0], "M2": p[1]}), case["goal"]).to_pandas()
-        if len(ser) == 0:
+        ser0 = ser.copy()
+        par0 = par.copy()
+        lc = ser.meanstress_transform.fkm_goodman(par, goal)
+        res = lc.to_pandas()
+        same_par = par.equals(par0) and (list(par.index) == list(par0.index) if isinstance(par, pd.Series) else list(par.columns) == list(par0.columns))
+        if not same_par:
+            return ("the accessor modified the caller's parameter object (an 'M2' entry appeared)", "default-M2-writes-operand")
+        if not (ser.equals(ser0) and list(ser.index.names) == list(ser0.index.names)):
+            return ("the accessor modified the caller's matrix", "C12")
+        if not cells:
             return None if len(res) == 0 else ("empty matrix gives a non-empty result", "C12")
         self.stats["oracle_checks"] += 1
-        tot_in, tot_out = float(ser.sum()), float(res.sum())
-        rng_, mean_, _ = self._mat_inputs(ser, names)
+        npar = len(pmap) if any(n not in enames for n in plevels) else 1
+        tot_in, tot_out = float(ser.sum()) * npar, float(res.sum())
         if tot_in != tot_out:
-            return (f"matrix transform to R={case['goal']} does not conserve the cycles: {tot_in} in, {tot_out} out", "C12")
-        if case.get("extra"):
-            gi = ser.groupby(level="node").sum()
-            go = res.groupby(level="node").sum()
-            if not gi.sort_index().equals(go.sort_index()):
-                return (f"matrix transform does not conserve the cycles per node: {gi.to_dict()} vs {go.to_dict()}", "C12")
-        # the class sums are those of the cycles transformed one by one through the collective interface
-        hd = make_hd(case["diag"])
-        one = hd.transform(ser, case["goal"])["range"].reindex(ser.index).to_numpy()   # label-aligned with the counts
-        itv = res.index.get_level_values("range").unique()
-        exp = [float(ser.values[((one >= iv.left) if iv.left == 0.0 else (one > iv.left)) & (one <= iv.right)].sum()) for iv in itv]
-        got = [float(res[res.index.get_level_values("range") == iv].sum()) for iv in itv]
-        if exp != got:
-            return (f"matrix transform to R={case['goal']}: class sums {got} but the cycles transformed one by one fall into {exp}",
-                    "matrix-row-order")
+            return (f"matrix transform to R={goal} does not conserve the cycles: {tot_in} in, {tot_out} out", "C12")
+        by = mat_result_by_key(res, rnames)
+        if sorted(by) != rkeys:
+            return (f"the result has the keys {sorted(by)} of the levels {rnames}, expected {rkeys}", "C12")
+        # per key: the class sums are those of the cycles transformed one by one (plain function, that key's parameters)
+        for k in rkeys:
+            mine = [c for c in cells if c[0] == k]
+            cnt = np.array([c[4] for c in mine])
+            if float(cnt.sum()) != float(sum(v for _, v in by[k])):
+                return (f"matrix transform does not conserve the cycles of key {k}: {float(cnt.sum())} in, {sum(v for _, v in by[k])} out", "C12")
+            Mk, M2k = mine[0][1]
+            amp = np.array([c[2] / 2.0 for c in mine])
+            mean = np.array([c[3] for c in mine])
+            live = amp > 0
+            one = np.zeros(len(mine))
+            if live.any():
+                # histogram route of HaighDiagram.transform for this key alone: the classes of this key (their own intervals, so the
+                # class mids are the same doubles), one class per row, a parameter Series - no alignment of any kind involved
+                rows_ = [c[5] for c, l in zip(mine, live) if l]
+                idx = pd.MultiIndex.from_arrays([ser.index.get_level_values(names[0])[rows_], ser.index.get_level_values(names[1])[rows_],
+                                                 np.arange(len(rows_))], names=[names[0], names[1], "i"])
+                hser = pd.Series(1.0, index=idx, name="cycles")
+                hd = M.HaighDiagram.fkm_goodman(pd.Series({"M": Mk, "M2": M2k}))
+                tr = hd.transform(hser, goal)["range"]
+                vals = dict(zip(tr.index.get_level_values("i"), tr.to_numpy()))
+                one[live] = [vals[i] for i in range(len(rows_))]
+                plain = 2.0 * M.fkm_goodman(amp[live], mean[live], Mk, M2k, goal)
+                for x, y in zip(one[live], plain):
+                    if not close(x, y, 1e-9, float(2.0 * amp.max())):      # class mids can be rounding noise (|from - to| of equal mids)
+                        return (f"key {k}: histogram route {x} vs plain function {y}", "C12")
+            exp = [float(cnt[((one >= iv.left) if iv.left == 0.0 else (one > iv.left)) & (one <= iv.right)].sum()) for iv, _ in by[k]]
+            got = [v for _, v in by[k]]
+            if exp != got:
+                klass = "matrix-row-order" if not plevels else "C12"
+                return (f"matrix transform to R={goal}, key {k} (M={Mk}, M2={M2k}): class sums {got} but the cycles of this key transformed "
+                        f"one by one fall into {exp}", klass)
         # every class of the result lies on the target ray
-        lc = ser.meanstress_transform.fkm_goodman(pd.Series({"M": p[0], "M2": p[1]}), case["goal"])
         R = lc.R.to_numpy()
         amp = lc.amplitude.to_numpy()
         for r, a in zip(R, amp):
-            if a > 0 and not close(r, case["goal"], 1e-7):
-                return (f"result class not at the target R: {r} vs {case['goal']}", "C12")
+            if a > 0 and not close(r, goal, 1e-7):
+                return (f"result class not at the target R: {r} vs {goal}", "C12")
         return None
 
     # ------------------------------------------------------------ shrinking
@@ -641,7 +1203,25 @@ class C12(Prop):
                         cur = cand
                         break
             return cur
-        cur = case
+        if case["k"] == "frm":
+            cur = case
+            for cand in (dict(cur, perm=None), dict(cur, pperm=None)):
+                cand = dict(cur, **{k: v for k, v in cand.items() if k in ("perm", "pperm")})
+                if still_fails(cand):
+                    cur = cand
+            if len(cur["order"]) > 1:
+                for i in range(len(cur["cyc"])):          # one cycle per key where that still fails
+                    if len(cur["cyc"][i]) > 1:
+                        cc = [list(c) for c in cur["cyc"]]
+                        cc[i] = cc[i][:1]
+                        cand = dict(cur, cyc=cc, perm=None)
+                        if still_fails(cand):
+                            cur = cand
+            return cur
+        cur = case = upgrade_mat(case)
+        for cand in (dict(cur, shuffle=None), dict(cur, nonzero_only=False)):
+            if still_fails(cand):
+                cur = cand
         for i, v in enumerate(case["counts"]):
             if v != 0.0:
                 cc = list(cur["counts"])
